@@ -5,9 +5,9 @@ from .lib import *
 RULE = ("valid codings: 0..3 chunks (quick: sizes from {1,2,3,15,16,255,256,4095,4096,random<=600}; thorough adds the exhaustive "
         "small scope: every coding with <=3 chunks of sizes 1..3 x extension y/n x 0..2 trailers x leading zero y/n), "
         "upper/lower hex, leading zeros, optional BWS and extension, payload with CR/LF bytes; always followed by the bytes of a "
-        "next response. Schedules: all-at-once, every single cut, all 1-byte arrivals, random cut sets; output sizes {0,1,2,3,4,"
+        "next response; the response preceded by an interim 1xx response, or carrying Connection: close, or answering a request with Connection: close / an HTTP/1.0 request. Schedules: all-at-once, every single cut, all 1-byte arrivals, random cut sets; output sizes {0,1,2,3,4,"
         "large,random}; stop_on_chunk_boundary on/off/toggled; extra reads after the end; exact-fill schedules (output buffers exactly the "
-        "chunk sizes, then only empty output buffers: the rest of the coding must still be consumed). Size lines longer than 20 bytes are "
+        "chunk sizes, then only empty output buffers: the rest of the coding must still be consumed); a set of codings through the single-call API (Call::read with explicit windows, with and without boundary stop). Size lines longer than 20 bytes are "
         "generated too (known finding class size-line-over-20). non-trivial = RecvBody reached, coding fully consumed and >= 1 "
         "payload byte delivered (or empty payload handled); distinct = distinct op lists")
 TRUSTED_BASE = COMMON_TRUSTED_BASE
@@ -15,7 +15,7 @@ ASSUMPTIONS = ["64-bit usize", "size lines are ASCII (a size line with bytes >= 
 EXHAUSTIVE = {"quick": False, "thorough": False}
 NEXT = b"HTTP/1.1 200 OK\r\nContent-Length: 1\r\n\r\nZ"
 HEAD = render_response_head("1.1", 200, b"OK", [(b"Transfer-Encoding", b"chunked")])
-_stats = {"over20": 0, "stop": 0, "schedules": {}}
+_stats = {"over20": 0, "stop": 0, "schedules": {}, "variant": {}}
 
 
 def payload(n, rng):
@@ -80,9 +80,17 @@ def schedule_ops(coding_len, rng, kind, caps, stop):
 
 def build(sizes, rng, ext, trailers, upper, zeros, bws, kind, caps, stop):
     coding, datas, maxline = make_coding(sizes, rng, ext, trailers, upper, zeros, bws)
-    stream = HEAD + coding + NEXT
-    ops = [op_new("GET"), "proceed", "write_head #4096", "proceed", "stream %s" % hx(stream), "arrive %s" % num(len(HEAD)),
-           "try_response", "proceed", "q_body_mode"]
+    # what surrounds the coding must not matter: an interim 1xx response before the head, Connection: close on either side,
+    # an HTTP/1.0 request (the response is HTTP/1.1 and chunked all the same)
+    variant = rng.choice(["plain", "plain", "plain", "interim", "interim", "resp-close", "req-close", "req-1.0"])
+    _stats["variant"][variant] = _stats["variant"].get(variant, 0) + 1
+    interim = rng.choice(INTERIM_HEADS) if variant == "interim" else b""
+    head = HEAD if variant != "resp-close" else render_response_head("1.1", 200, b"OK", [(b"Connection", b"close"), (b"Transfer-Encoding", b"chunked")])
+    stream = interim + head + coding + NEXT
+    req = op_new("GET", "1.0" if variant == "req-1.0" else "1.1", headers=[("connection", "close")] if variant == "req-close" else [])
+    ops = [req, "proceed", "write_head #4096", "proceed", "stream %s" % hx(stream), "arrive %s" % num(len(interim) + len(head))] + \
+          (["try_response"] if interim else []) + ["try_response", "proceed", "q_body_mode"]
+    HEAD_LEN = len(interim) + len(head)
     ops += schedule_ops(len(coding), rng, kind, caps, stop)
     # drain: enough large reads to finish whatever the schedule left (boundary stops need one read per chunk)
     for _ in range(len(sizes) + 3):
@@ -92,7 +100,7 @@ def build(sizes, rng, ext, trailers, upper, zeros, bws, kind, caps, stop):
         _stats["over20"] += 1
     if stop != "off":
         _stats["stop"] += 1
-    return {"ops": ops, "meta": {"coding": len(coding), "datas": [d.hex() for d in datas], "maxline": maxline, "head": len(HEAD)}}
+    return {"ops": ops, "meta": {"coding": len(coding), "datas": [d.hex() for d in datas], "maxline": maxline, "head": HEAD_LEN, "variant": variant}}
 
 
 def build_exact_fill(sizes, rng, ext, trailers, upper, zeros, bws, stop, onebyte):
@@ -165,6 +173,60 @@ def gen_small_scope(rng, fraction):
     return out
 
 
+def build_call(sizes, rng, ext, trailers, upper, zeros, stop):
+    """The coding through the single-call API (Call::try_response / into_body / read / stop_on_chunk_boundary / is_on_chunk_boundary /
+    is_ended) with explicit windows. The whole rest of the stream is offered each time with a large output buffer: without boundary
+    stopping one read takes the whole coding, with it one read takes one chunk (size line, data, CRLF) and a last one the tail."""
+    coding, datas, maxline = make_coding(sizes, rng, ext, trailers, upper, zeros, b"")
+    ops = call_recv_prelude(rng.choice(["GET", "POST"])) + ["raw_try_response %s" % hx(HEAD), "q_is_finished", "proceed", "q_boundary"]
+    if stop:
+        ops.append("stop #1")
+    rest = coding + NEXT
+    expect = []
+    pos = 0
+    if stop:
+        for d in datas:
+            e = coding.index(b"\r\n", pos)
+            nxt = e + 2 + len(d) + 2
+            expect.append((len(ops), nxt - pos, d.hex()))
+            ops.append("raw_read %s #100000" % hx(rest[pos:]))
+            pos = nxt
+            ops.append("q_boundary")
+    expect.append((len(ops), len(coding) - pos, b"".join(datas).hex() if not stop else ""))
+    ops.append("raw_read %s #100000" % hx(rest[pos:]))
+    ops.append("q_is_finished")
+    expect.append((len(ops), 0, ""))
+    ops.append("raw_read %s #100000" % hx(NEXT))
+    _stats["call_api"] = _stats.get("call_api", 0) + 1
+    return {"ops": ops, "meta": {"coding": len(coding), "datas": [d.hex() for d in datas], "maxline": maxline, "head": len(HEAD), "api": "call",
+                                 "expect": expect, "stop": stop}}
+
+
+def oracle_call(script, obs):
+    meta = script["meta"]
+    ops = script["ops"]
+    if any(o == "panic" for o in obs):
+        return ["panic (single-call API)"]
+    i = next(k for k, op in enumerate(ops) if op.startswith("raw_try_response"))
+    if not obs[i].startswith("some #%d " % meta["head"]) or obs[i + 2] != "call RecvBody":
+        return ["single-call API: head / into_body: %s / %s" % (obs[i][:40], obs[i + 2])]
+    over20 = meta["maxline"] > 20
+    for idx, want_in, want_out in meta["expect"]:
+        o = obs[idx]
+        if o.startswith("err"):
+            if over20:
+                return [("single-call API: valid coding with a size line of %d bytes rejected: %s" % (meta["maxline"], o), "size-line-over-20")]
+            return ["single-call API: valid coding rejected: %s" % o]
+        ci, co, data = parse_counts(o)
+        if ci != want_in or data.hex() != want_out:
+            return ["single-call API (%s boundary stop): a read consumed %d and produced %d bytes, expected %d and %d" % (
+                "with" if meta["stop"] else "without", ci, co, want_in, len(want_out) // 2)]
+    k = max(j for j, op in enumerate(ops) if op == "q_is_finished")
+    if obs[k] != "true":
+        return ["single-call API: the whole coding was consumed but Call::is_ended is %s" % obs[k]]
+    return []
+
+
 def gen_exact_fill(rng, count):
     out = []
     for k in range(count):
@@ -192,6 +254,11 @@ def generate(rng, tier, mult):
         out = gen_small_scope(rng, 0.004 * mult)
         out += [gen_random(rng) for _ in range(900 * mult)]
     out += gen_exact_fill(rng, (400 if tier == "thorough" else 60) * mult)
+    for _ in range((600 if tier == "thorough" else 80) * mult):
+        nch = rng.choice([0, 1, 2, 3])
+        sizes = [rng.choice([1, 2, 3, 15, 16, 255, 256]) for _ in range(nch)]
+        out.append(build_call(sizes, rng, rng.choice([None, None, b";e=1"]), [b"T: v"] * rng.choice([0, 0, 1, 2]), rng.random() < 0.3,
+                              rng.choice([0, 0, 1]), rng.random() < 0.5))
     return out
 
 
@@ -210,6 +277,8 @@ def known_class(script, obs):
 
 
 def oracle(script, obs):
+    if script["meta"].get("api") == "call":
+        return oracle_call(script, obs)
     fails = []
     meta = script["meta"]
     datas = [bytes.fromhex(d) for d in meta["datas"]]
@@ -297,7 +366,7 @@ def oracle(script, obs):
                 break
         elif p[0] == "proceed" and in_body and o.startswith("state"):
             in_body = False
-        elif p[0] == "q_must_close" and o == "true":
+        elif p[0] == "q_must_close" and o == "true" and meta.get("variant", "plain") in ("plain", "interim"):
             fails.append("chunked body on HTTP/1.1 marked the connection for closing")
     if not errored and not fails and in_body is False and delivered != payload_all:
         fails.append("left the body state with %d of %d payload bytes" % (len(delivered), len(payload_all)))
@@ -305,6 +374,8 @@ def oracle(script, obs):
 
 
 def nontrivial(script, obs):
+    if script["meta"].get("api") == "call":
+        return any(o == "call RecvBody" for o in obs)
     reached = any(o == "state RecvBody" for o in obs)
     finished = any(op == "q_can_proceed" and o == "true" for op, o in zip(script["ops"], obs))
     return reached and finished
